@@ -58,6 +58,7 @@ ASSUMPTIONS = [
     "session.get()/many-to-one loads whose chooser-selected shards hold the PK more than once must raise MultipleResultsFound (Result.one()); not judged further",
     "bulk DELETE uses synchronize_session='fetch' (evaluate skips expired objects by design, which would leave stale identities the model does not track); no rollback op",
     "merge(load=True) of a detached persistent object reconciles by its full identity key (class, pk, identity_token) as Session.merge documents; the detached object has no loaded relationships, so nothing cascades",
+    "Session.merge copies the given instance's load_path / load_options onto the merged instance (source comment in Session._merge), so a propagating set_shard_id of the resident object is replaced by the source's options; the model follows that",
     "trusted: the Python row model in this file, sqlite3 as the independent observer, vf.sautil.Capture (before_cursor_execute) as statement monitor",
 ]
 
@@ -1019,6 +1020,7 @@ def _op_merge(w, op):
     ShardedSession includes the identity token: the merged object is the B identity, A is untouched, the UPDATE goes to B"""
     cls, how = op["cls"], op["how"]
     ent = CLS[cls]
+    src_sticky = None  # loader options travel with the given instance: Session._merge copies load_path / load_options onto the merged one
     rows = w.rows_of(cls)
     dup = [(s, pk) for s, pk in rows if any(o != s and pk in w.db[o][cls] for o in w.names)]
     if op["dup"] and dup:
@@ -1048,7 +1050,7 @@ def _op_merge(w, op):
         if kb not in w.held:
             w.pick(cls, w.rows_of(cls).index((b, pk)))
         w.audit_obj(kb, "pre-merge")  # loads expired column attributes (own shard only)
-        det = w.held[kb][0]
+        det, src_sticky = w.held[kb]
         w.sess.expire(det, ["children" if cls == "P" else "parent"])  # unloaded relationships: merge does not cascade
         w.sess.expunge(det)
         w.drop(kb)
@@ -1127,7 +1129,11 @@ def _op_merge(w, op):
         w.expect_sql("merge-flush", exact=[b], kinds={"INSERT", "UPDATE", "DELETE"})
     else:
         w.expect_sql("merge-flush", exact=[], kinds={"INSERT", "UPDATE", "DELETE"})
-    w.see(merged, cls, "merge", expected_shard=b)
+    w.see(merged, cls, "merge", sticky_if_new=src_sticky, expected_shard=b)
+    if w.held[kb][1] != src_sticky:
+        # merge onto a resident object replaces its loader options (e.g. a propagating set_shard_id) by those of the source
+        w.labels.add("merge:replaces-propagated-shard-option")
+        w.held[kb][1] = src_sticky
     w.audit_all("merge")  # A's attributes untouched, B's follow the merged state
     if new_val is not None and op["commit"]:
         w.sess.commit()
